@@ -396,7 +396,11 @@ def _drive_one(oid, case, res, tmo):
         res.replays += 1
         if v['reproduced'] and case.strong_replay is not None:
             try:
-                ok, text = case.strong_replay(v['model'])
+                if len(inspect.signature(
+                        case.strong_replay).parameters) >= 2:
+                    ok, text = case.strong_replay(v['model'], v)
+                else:
+                    ok, text = case.strong_replay(v['model'])
                 v['strong_replay'] = {'reproduced': bool(ok), 'text': text}
                 if not ok:
                     v['reproduced'] = False
